@@ -161,11 +161,17 @@ def pslq(ctx, x, tol=None, maxcoeff=1000, maxsteps=100, verbose=False):
     # use 1-based indexing. (This just allows us to be consistent with
     # Bailey's indexing. The algorithm is 100 lines long, so debugging
     # a single wrong index can be painful.)
+    nonzero = all(ctx.mpf(xk) for xk in x)
     x = [None] + [ctx.to_fixed(ctx.mpf(xk), prec) for xk in x]
 
     # Sanity check on magnitudes
     minx = min(abs(xx) for xx in x[1:])
     if not minx:
+        if nonzero:
+            # a nonzero number below the fixed-point resolution
+            if verbose:
+                print("STOPPING: (one number is too small)")
+            return None
         raise ValueError("PSLQ requires a vector of nonzero numbers")
     if minx < tol//100:
         if verbose:
